@@ -49,6 +49,8 @@ var DeepStates = map[string][]string{
 	"conflicted-pending": {"x.pa", "d", "x.pa", "d", "y.sp", "x.cc", "d"},
 	"binding-withdrawn":  {"x.e", "d", "x.e", "d", "x.bn", "d", "x.e", "d", "x.e", "d", "x.e", "d", "x.bw", "d"},
 	"staking-withdrawn":  {"x.st", "d", "x.e", "d", "x.e", "d", "x.sw", "d"},
+	// + a relayed payment to the wallet whose binding target has an unknown type
+	"odd-binding-target": {"x.e", "d", "x.e", "d", "x.pa", "d"},
 }
 
 type Opts struct {
@@ -321,6 +323,12 @@ func (m *Model) Run(hist []string) *proto.Result {
 		ok, err := w.Apply(ev)
 		if err != nil || !ok {
 			res.Err = fmt.Sprintf("state %s event %d %s: enabled=%v err=%v", hist[0], i, ev, ok, err)
+			return res
+		}
+	}
+	if hist[0] == "odd-binding-target" {
+		if err := w.OddBindingEvents(); err != nil {
+			res.Err = "odd binding events: " + err.Error()
 			return res
 		}
 	}
